@@ -37,8 +37,8 @@ def renderable_classes(program: Program) -> list[ClassInfo]:
 
 
 def render(program: Program, cls: ClassInfo, method: str = "get_sql", attrs: dict | None = None,
-           ctx: CtxV | None = None, maybe_none: bool | None = None, extra_args: list | None = None):
-    ev = Evaluator(program)
+           ctx: CtxV | None = None, maybe_none: bool | None = None, extra_args: list | None = None, inline_self: bool = True):
+    ev = Evaluator(program, inline_self=inline_self)
     o = ev.self_obj(cls, attrs)
     f = cls.resolve(method)
     if f is None:
@@ -59,6 +59,11 @@ def render(program: Program, cls: ClassInfo, method: str = "get_sql", attrs: dic
         else:
             args.append(Sym("param", (prm,)))
     v = ev.call_function(f, cls, o, args, {})
+    if method in ("get_sql", "get_name_sql") and isinstance(v, (Sym, Phi, Obj)):
+        # a renderer returning a bare value (e.g. `return self.name`): it is the whole text
+        ps = ev.phi_to_str(v)
+        if ps is not None:
+            v = ps
     return v, ev
 
 
@@ -313,3 +318,30 @@ def quoted_spans(flat):
 def _is_quote_expr(v) -> bool:
     s = show(v)
     return "quote_char" in s or s in ("'\"'", '"\'"', "'`'")
+
+
+def function_skeletons(program: Program):
+    """function-local skeletons: every render-family method with a ctx parameter, evaluated on its defining class with
+    calls to the object's own helpers kept as slots (small alternatives sets, full path enumeration possible)"""
+    cache = program.__dict__.get("_function_skeletons")
+    if cache is not None:
+        return cache
+    from .families import is_observer
+    out = {}
+    for c in program.all_classes():
+        for name, f in c.methods.items():
+            if f.is_builder or f.is_property or not is_observer(f) or name.startswith("__"):
+                continue
+            if "ctx" not in f.params:
+                continue
+            try:
+                v, ev = render(program, c, name, inline_self=False)
+            except AnalysisError:
+                raise
+            if isinstance(v, (Sym, Phi, Obj)):
+                ps = ev.phi_to_str(v)
+                if ps is not None:
+                    v = ps
+            out[f] = v
+    program.__dict__["_function_skeletons"] = out
+    return out
